@@ -430,6 +430,45 @@ func checkBiMapOrientation(c *Ctx, res *report.Result, rule string, ns, sa bool)
 			}
 		}
 		res.Check(ok, rule, s.a.name+": pairs are yielded as (local, remote)", fnPos(c.Prog, f), "yield(m."+s.first+", m."+s.secnd+")", "the base map is not built with the local name as key and the remote name as value")
+		ruleInj := rule
+		if rule == "O13.1" {
+			ruleInj = "O13.4"
+		}
+		// every configured pair reaches the bimap (and with it the duplicate tests): in the generator closure no
+		// path from the load of an element back to the loop head avoids the yield call
+		for _, g := range flow.AnonFuncsDeep(f) {
+			isYield := func(x ssa.Instruction) bool {
+				call, isC := x.(ssa.CallInstruction)
+				if !isC {
+					return false
+				}
+				cc := call.Common()
+				return !cc.IsInvoke() && flow.StaticCallee(cc) == nil && len(g.Params) > 0 && cc.Value == ssa.Value(g.Params[0])
+			}
+			if len(flow.FindCalls(g, func(cc *ssa.CallCommon) bool { return len(g.Params) > 0 && cc.Value == ssa.Value(g.Params[0]) })) == 0 {
+				continue
+			}
+			checked := false
+			for _, b := range g.Blocks {
+				for _, ins := range b.Instrs {
+					ia, isIA := ins.(*ssa.IndexAddr)
+					if !isIA {
+						continue
+					}
+					idx, isInstr := ia.Index.(ssa.Instruction)
+					if !isInstr || !idx.Block().Dominates(b) {
+						continue
+					}
+					checked = true
+					isHead := func(x ssa.Instruction) bool { return x == idx }
+					r := flow.FindPath(flow.After(ia), isHead, isYield, nil)
+					res.Check(!r.Found, ruleInj, s.a.name+": every configured pair reaches the bimap", instrPos(c.Prog, ia), "no path through the loop body skips yield", "a configured pair can be skipped before it is handed to the bimap (path "+flow.BlockPath(r.Via)+"): it then takes no part in the one-to-one test, and a list that maps two names onto one is accepted at start-up")
+				}
+			}
+			if !checked {
+				res.Undec(ruleInj, s.a.name+": every configured pair reaches the bimap", fnPos(c.Prog, g), "the loop over the configured pairs was not recognised")
+			}
+		}
 	}
 	// generic bimap: forward.contents[key]=val; backward.contents[val]=key; inverse pointers crossed; Inverse returns m.inverse
 	pk, err := c.Prog.SSAPkg("collect")
